@@ -110,7 +110,114 @@ def observe_doc(c):
         o["np"] = p2.numpy()
     except Exception as e:
         o["np_exc"] = e
+    o["sel"] = observe_doc_selectors(p2)
     return o
+
+
+def _try(f):
+    try:
+        return f()
+    except Exception as e:  # the outcome IS the exception
+        return e
+
+
+def observe_doc_selectors(p2):
+    """every channel selector the document API offers"""
+    from psd_tools.constants import ChannelID
+
+    sel = {}
+    for k in range(p2.channels):
+        sel["topil(%d)" % k] = _try(lambda: p2.topil(k))
+    sel["topil(T)"] = _try(lambda: p2.topil(ChannelID.TRANSPARENCY_MASK))
+    for name in ("color", "shape", "mask"):
+        sel["numpy(%s)" % name] = _try(lambda: p2.numpy(name))
+    if p2.color_mode.name != "CMYK":  # composite_pil cannot build 'CMYKA' (F-C17-2)
+        sel["composite(force)"] = _try(lambda: p2.composite(force=True))
+    return sel
+
+
+def oracle_doc_selectors(ck, c, o):
+    import numpy as np
+
+    im = o["im"]
+    exp = im.convert("L") if im.mode == "1" else im
+    sel = o.get("sel")
+    if sel is None:
+        return
+    ep = pc.pil_planes(exp)
+    n = len(ep)
+    w, h = exp.size
+    has_a = exp.mode in ("LA", "RGBA")
+    nc = n - 1 if has_a else n
+    alpha = ep[-1] if has_a else None
+    ones = [255] * (w * h)
+
+    def bad(name, observed, expected):
+        ck.fail("doc-selector", c, observed, expected, selector=name)
+
+    for name, v in sel.items():
+        if isinstance(v, Exception):
+            ck.fail("doc-selector", c, repr(v), "a value", selector=name, exc=type(v).__name__)
+    arr = o.get("np")
+    full = pc.np_planes(arr) if arr is not None and tuple(arr.shape) == (h, w, n) else None
+
+    def planes_of(name, k):
+        v = sel.get(name)
+        if v is None or isinstance(v, Exception):
+            return None
+        if tuple(v.shape) != (h, w, k):
+            bad(name, list(v.shape), [h, w, k])
+            return None
+        return pc.np_planes(v)
+
+    col = planes_of("numpy(color)", nc)
+    if col is not None and full is not None and col != full[:nc]:
+        bad("numpy(color)", "differs from numpy()[:, :, :%d]" % nc, "the same samples")
+    shp = planes_of("numpy(shape)", 1)
+    if shp is not None:
+        want = alpha if has_a else ones
+        if shp[0] != want:
+            bad("numpy(shape)", shp[0][:16], want[:16])
+    msk = planes_of("numpy(mask)", 1)
+    if msk is not None and msk[0] != ones:
+        bad("numpy(mask)", msk[0][:16], ones[:16])
+    # single channels through PIL against the NumPy export of the same channel
+    for k in range(n):
+        v = sel.get("topil(%d)" % k)
+        if v is None:
+            bad("topil(%d)" % k, None, "an 'L' image")
+            continue
+        if isinstance(v, Exception):
+            continue
+        if v.mode != "L" or v.size != (w, h):
+            bad("topil(%d)" % k, [v.mode, list(v.size)], ["L", [w, h]])
+            continue
+        if full is not None:
+            got = pc.pil_planes(v)[0]
+            idx = range(w * h)
+            if exp.mode == "RGBA" and k < 3:  # numpy() removes the white background: comparable where alpha is 0 or 255
+                idx = [i for i in idx if alpha[i] in (0, 255)]
+            if any(got[i] != full[k][i] for i in idx):
+                bad("topil(%d)" % k, "differs from numpy()[:, :, %d]" % k, "the same samples")
+    t = sel.get("topil(T)")
+    if not isinstance(t, Exception):
+        if has_a:
+            if t is None or pc.pil_planes(t)[0] != alpha:
+                bad("topil(TRANSPARENCY_MASK)", None if t is None else pc.pil_planes(t)[0][:16], alpha[:16])
+        elif t is not None:
+            bad("topil(TRANSPARENCY_MASK)", "an image", None)
+    cp = sel.get("composite(force)")
+    if cp is not None and not isinstance(cp, Exception):
+        want_mode = exp.mode if has_a else exp.mode + "A"
+        if cp.mode != want_mode or cp.size != (w, h):
+            bad("composite(force)", [cp.mode, list(cp.size)], [want_mode, [w, h]])
+        else:
+            cpl = pc.pil_planes(cp)
+            a = alpha if has_a else ones
+            if cpl[-1] != a:
+                bad("composite(force)", cpl[-1][:16], a[:16])
+            elif any(abs(cpl[k][i] - ep[k][i]) > 1 for k in range(nc) for i in range(w * h) if a[i] == 255):
+                bad("composite(force)", "colour of opaque pixels differs", "imported samples")
 
 
 def tol_color(a):
@@ -251,7 +358,49 @@ def observe_layer(c):
         o["pil_alpha"] = l2.topil(ChannelID.TRANSPARENCY_MASK)
     except Exception as e:
         o["pil_alpha_exc"] = e
+    if c["depth"] == 8:
+        nc = {"L": 1, "RGB": 3, "CMYK": 4}[BASE[c["docmode"]]]
+        sel = {}
+        for k in [-1] + list(range(nc)):
+            sel["topil(%d)" % k] = _try(lambda: l2.topil(k))
+        sel["numpy(color)"] = _try(lambda: l2.numpy("color"))
+        sel["numpy(shape)"] = _try(lambda: l2.numpy("shape"))
+        o["sel"] = sel
     return o
+
+
+def oracle_layer_selectors(ck, c, o):
+    sel = o.get("sel")
+    if sel is None or "np" not in o or o["np"] is None:
+        return
+    w, h = c["w"], c["h"]
+    nc = {"L": 1, "RGB": 3, "CMYK": 4}[BASE[c["docmode"]]]
+    if tuple(o["np"].shape) != (h, w, nc + 1):
+        return
+    full = pc.np_planes(o["np"])
+
+    def bad(name, observed, expected):
+        ck.fail("layer-selector", c, observed, expected, selector=name)
+
+    for name, v in sel.items():
+        if isinstance(v, Exception):
+            ck.fail("layer-selector", c, repr(v), "a value", selector=name, exc=type(v).__name__)
+    for k in [-1] + list(range(nc)):
+        v = sel["topil(%d)" % k]
+        if isinstance(v, Exception):
+            continue
+        if v is None or v.mode != "L" or v.size != (w, h):
+            bad("topil(%d)" % k, None if v is None else [v.mode, list(v.size)], ["L", [w, h]])
+        elif pc.pil_planes(v)[0] != full[k if k >= 0 else nc]:
+            bad("topil(%d)" % k, "differs from the same channel of numpy()", "the same samples")
+    for name, lo, hi in (("numpy(color)", 0, nc), ("numpy(shape)", nc, nc + 1)):
+        v = sel[name]
+        if isinstance(v, Exception):
+            continue
+        if v is None or tuple(v.shape) != (h, w, hi - lo):
+            bad(name, None if v is None else list(v.shape), [h, w, hi - lo])
+        elif pc.np_planes(v) != full[lo:hi]:
+            bad(name, "differs from numpy()[:, :, %d:%d]" % (lo, hi), "the same samples")
 
 
 def oracle_layer(ck, c, o):
@@ -336,7 +485,7 @@ def z(v):
 def layer_impl_digests(c, o, export):
     if "layer" not in o:
         code = exc_code(o["build_exc"])
-        return [pc.dg([code])] * 3
+        return [pc.dg([code])] * 4
     l = o["layer"]
     rec = l._record
     out = [rec.top + 1000000, rec.left + 1000000, rec.bottom + 1000000, rec.right + 1000000, len(rec.channel_info)]
@@ -348,7 +497,7 @@ def layer_impl_digests(c, o, export):
         out += [int(info.id) + 2, len(data)] + data
     d0 = pc.dg(out)
     if not export:
-        return [d0, 0, 0]
+        return [d0, 0, 0, 0]
     if "pil_exc" in o:
         d1 = pc.dg([exc_code(o["pil_exc"])])
     elif o.get("pil") is None:
@@ -360,7 +509,25 @@ def layer_impl_digests(c, o, export):
         d2 = pc.dg([-1])
     else:
         d2 = pc.dg(pc.canon_planes(pc.np_planes(o["np"])))
-    return [d0, d1, d2]
+    sel = o.get("sel") or {}
+    nc = {"L": 1, "RGB": 3, "CMYK": 4}[BASE[c["docmode"]]]
+    acc = []
+    for k in [-1] + list(range(nc)):
+        v = sel.get("topil(%d)" % k)
+        if isinstance(v, Exception):
+            acc += [-exc_code(v)]
+        elif v is None:
+            acc += [0]
+        else:
+            pl = pc.pil_planes(v)[0]
+            acc += [1, len(pl)] + pl
+    for name in ("numpy(color)", "numpy(shape)"):
+        v = sel.get(name)
+        if isinstance(v, Exception):
+            acc += [-exc_code(v)]
+        else:
+            acc += pc.canon_planes([] if v is None else pc.np_planes(v))
+    return [d0, d1, d2, pc.dg(acc)]
 
 
 def layer_lit_of(bits):
@@ -383,9 +550,12 @@ def doc_impl_digests(c, o, flags):
     else:
         h = PSDImage._make_header(im.mode, im.size)
         d0 = pc.dg([int(h.color_mode), h.channels, h.width, h.height, h.depth])
+    both = flags[0] and flags[1]
     if "build_exc" in o:
         e = [exc_code(o["build_exc"])]
-        return [d0, pc.dg(e), pc.dg(e) if flags[0] else 0, pc.dg(e) if flags[1] else 0]
+        h = PSDImage._make_header(im.mode, im.size)
+        return [d0, pc.dg(e), pc.dg(e) if flags[0] else 0, pc.dg(e) if flags[1] else 0,
+                pc.dg(e * (h.channels + 4)) if both else 0]
     d1 = pc.dg([exc_code(o["stored_exc"])]) if "stored_exc" in o else pc.dg([0] + pc.canon_planes(o["stored"]))
     d2 = d3 = 0
     if flags[0]:
@@ -396,7 +566,24 @@ def doc_impl_digests(c, o, flags):
             d2 = pc.dg([0] + pc.canon_raster(p.mode, p.size[0], p.size[1], pc.pil_planes(p)))
     if flags[1]:
         d3 = pc.dg([exc_code(o["np_exc"])]) if "np_exc" in o else pc.dg([0] + pc.canon_planes(pc.np_planes(o["np"])))
-    return [d0, d1, d2, d3]
+    d4 = 0
+    if both:
+        sel = o.get("sel") or {}
+        acc = []
+        for name in ["topil(%d)" % k for k in range(o["header"][1])] + ["topil(T)"]:
+            v = sel.get(name)
+            if isinstance(v, Exception):
+                acc += [exc_code(v)]
+            elif v is None:
+                acc += [0, 0]
+            else:
+                pl = pc.pil_planes(v)[0]
+                acc += [0, 1, len(pl)] + pl
+        for name in ("numpy(color)", "numpy(shape)", "numpy(mask)"):
+            v = sel.get(name)
+            acc += [exc_code(v)] if isinstance(v, Exception) else [0] + pc.canon_planes(pc.np_planes(v))
+        d4 = pc.dg(acc)
+    return [d0, d1, d2, d3, d4]
 
 
 def doc_flags(c):
@@ -467,7 +654,7 @@ core.KNOWN_CLASSIFIERS["F-C07-4"] = lambda fl: (
     and fl["kind"] in ("doc-pixels", "doc-numpy") and fl.get("bad_alpha") == ["partial"])
 core.KNOWN_CLASSIFIERS["F-C07-5"] = lambda fl: (
     _inp(fl).get("path") == "doc" and _inp(fl).get("mode") == "1"
-    and fl["kind"] in ("doc-raises", "doc-mode", "doc-pixels", "doc-numpy", "doc-pil-vs-numpy"))
+    and fl["kind"] in ("doc-raises", "doc-mode", "doc-pixels", "doc-numpy", "doc-pil-vs-numpy", "doc-selector"))
 core.KNOWN_CLASSIFIERS["F-C07-7"] = lambda fl: (
     _inp(fl).get("path") == "layer" and _inp(fl).get("depth") in (16, 32)
     and fl["kind"] in ("layer-export-raises", "layer-mode", "layer-pixels", "layer-numpy", "layer-alpha"))
@@ -481,9 +668,13 @@ def _still_fails(c):
     probe.failures = []
     probe.fail = lambda kind, inp, observed, expected, **extra: probe.failures.append(dict(kind=kind, input=inp, **extra))
     if c["path"] == "doc":
-        oracle_doc(probe, c, observe_doc(c))
+        o = observe_doc(c)
+        oracle_doc(probe, c, o)
+        oracle_doc_selectors(probe, c, o)
     else:
-        oracle_layer(probe, c, observe_layer(c))
+        o = observe_layer(c)
+        oracle_layer(probe, c, o)
+        oracle_layer_selectors(probe, c, o)
     return probe.failures
 
 
@@ -571,6 +762,7 @@ def run():
     for c in dcs:
         o = observe_doc(c)
         oracle_doc(ck, c, o)
+        oracle_doc_selectors(ck, c, o)
         images.append(o["im"])
         fl = doc_flags(c)
         tab = {"L": pc.pil_planes(o["im"].convert("L"))} if c["mode"] == "1" else {}
@@ -587,6 +779,7 @@ def run():
     for i, c in enumerate(lcs):
         o = observe_layer(c)
         oracle_layer(ck, c, o)
+        oracle_layer_selectors(ck, c, o)
         ck.count("layer:%s<-%s" % (c["docmode"], c["mode"]))
         ck.count("depth:%d" % c["depth"])
         cv = PSB_CANVAS if c.get("psb") else CANVAS
